@@ -31,6 +31,7 @@ STUB_A = [
 
 
 class EngineACheck(Check):
+    USES_TEMPLATE_DB = True
     COMPONENTS_REAL = REAL_A
     COMPONENTS_STUB = STUB_A
     ASSUMPTIONS = [
